@@ -417,6 +417,13 @@ impl<'a> PGen<'a> {
                 };
                 // a keys filter directly after a key, `*` or `[*]` only (anything else is ill-typed)
                 let pos = parts.iter().rposition(|p| matches!(p, Part::Key(_) | Part::Star | Part::AllIdx)).map(|i| i + 1).unwrap_or(0);
+                // the right-hand side may also be a query variable: no value, one or several
+                if !vars.qvars.is_empty() && u.chance(1, 3) {
+                    let var = vars.qvars[u.below(vars.qvars.len())].clone();
+                    let op = if matches!(rhs, Lit::Regex(_)) { BinOp::In } else { op };
+                    parts.insert(pos, Part::KeysFilterVar { op, neg, var });
+                    return Query { head: Head::Key(head), parts };
+                }
                 parts.insert(pos, Part::KeysFilter { op, neg, rhs });
                 return Query { head: Head::Key(head), parts };
             } else if let Some((name, _)) = vars.lvars.iter().find(|(_, l)| matches!(l, Lit::V(V::Str(s)) if !s.is_empty())) {
